@@ -29,6 +29,9 @@ DRIVER = os.path.join(vlib.ROOT, "tools", "c19_driver.py")
 TOOLCHAIN_SYMS = re.compile(r"^(_DYNAMIC|_GLOBAL_OFFSET_TABLE_|__TMC_END__|__do_global_dtors_aux_fini_array_entry|__dso_handle|"
                             r"__frame_dummy_init_array_entry|completed\.\d+|__bss_start|_edata|_end|__data_start|data_start|"
                             r"object\.\d+|dtor_idx\.\d+|__JCR_END__|__JCR_LIST__|__EH_FRAME_BEGIN__|_fini|_init)$")
+# corners of what the property quantifies over ("all simulations"): sizes, degenerate values, signs, magnitudes, error paths
+CORNERS = ["empty", "star_only", "one_planet", "zero_mass", "coincident", "nan", "inf", "huge", "subnormal", "negative_zero", "t_nonzero",
+           "dt_negative", "tmax_equals_t", "e_zero", "e_near_one", "inc_zero", "inc_pi", "zero_radius_collisions", "equal_hashes", "after_error"]
 INTEGRATORS = ["leapfrog", "whfast", "saba", "eos", "janus", "ias15", "bs", "mercurius", "trace", "sei"]
 
 
@@ -133,6 +136,14 @@ def conc_params(ctx, nper, rounds):
             if integ == "sei":
                 s["n"] = rng.randint(3, 30)
             specs.append(s)
+    # degenerate corners of the quantified space, each on a randomly chosen integrator
+    for cn in CORNERS:
+        integ = rng.choice(INTEGRATORS[:-1])
+        s = {"integrator": integ, "n": {"star_only": 0, "one_planet": 1}.get(cn, rng.randint(2, 4)), "seed": rng.randint(1, 10 ** 6), "dt": 0.01,
+             "eft": rng.choice([0, 1]) if integ != "janus" else 0, "corner": cn, "t1": 0.3, "t2": 0.7, "safe_mode": rng.choice([0, 1])}
+        specs.append(s)
+    for i, s in enumerate(specs):
+        s["id"] = i
     rng.shuffle(specs)
     offsets = [[round(rng.choice([0.0, 0.0, rng.uniform(0, 0.02)]), 4) for _ in specs] for _ in range(rounds)]
     return {"specs": specs, "rounds": rounds, "offsets": offsets, "timeout": 150}
